@@ -141,6 +141,28 @@ def run(ctx):
                     why = 'verdict %d differs from the specification (%s)' % (ret, spec[j][0])
                 if why:
                     viol.append(dict(fmt=fmt, decoder=k, flags=fl, fault=kind, pos=pos, why=why, file=blob.hex(), original=f.hex(), ret=ret))
+    # ---- .lz members whose payload was replaced by another well-formed payload of the same uncompressed length (the stored
+    # CRC32 is the only thing that can tell): versions 0 and 1, alone, after an intact member, through the auto decoder
+    sw_blobs, sw_meta = [], []
+    for ver in (0, 1):
+        for n_ in ((1, 7, 60, 300) if ctx.quick() else (1, 2, 7, 60, 300, 5000)):
+            for _r in range(2 if ctx.quick() else 8):
+                dA = xzgen.gen_data(rng, n_); dB = bytes(rng.getrandbits(8) for _ in range(n_))
+                if dA == dB: continue
+                mA = lz_member(rng, dA, version=ver, dict_code=16); mB = lz_member(rng, dB, version=ver, dict_code=16)
+                fo = 12 if ver == 0 else 20
+                sw = mB[:len(mB) - fo] + mA[len(mA) - fo:len(mA) - fo + 4] + mB[len(mB) - fo + 4:]
+                good = lz_member(rng, xzgen.gen_data(rng, 20), version=rng.choice([0, 1]))
+                sw_blobs += [sw, good + sw]; sw_meta += [(ver, n_, 'alone'), (ver, n_, 'after an intact member')]
+    for (k, fl) in ((4, LZMA_CONCATENATED), (4, 0), (2, LZMA_CONCATENATED)):
+        for mode in (0, 1):
+            r_, f_ = impl_dec(drv, k, fl, mode, 0, sw_blobs)
+            for (ver, n_, where), b_, x in zip(sw_meta, sw_blobs, r_):
+                if x is None: continue
+                n_eval += 1
+                if x[0] == 1 and not (fl == 0 and where != 'alone'):
+                    viol.append(dict(fmt='lz', decoder=k, flags=fl, fault='payload replaced, CRC32 kept', pos=-1, file=b_.hex(), original='', ret=1,
+                                     why='.lz version %d member (%d bytes of data, %s) whose payload was replaced by other data of the same length is reported as success: the stored CRC32 was not verified' % (ver, n_, where)))
     ctx.cov['evaluations'] = n_eval
     ctx.cov['distinct_nontrivial'] = len(distinct)
     ctx.cov['exhaustive'] = True
